@@ -13,6 +13,7 @@
    matcher (C08: a predicate on names), the client multiplexer (C10: a sent request is answered
    by one Answer action), fault handling inside a batch (C11).  No proofs here. *)
 From V Require Export Base.
+From V Require Export C05_Load.
 From V Require Import C08_Model.
 Open Scope N_scope.
 
@@ -715,4 +716,5 @@ Definition run_c05_complete (args : list sx) : sx :=
 
 Definition c05_table : list (bytes * (list sx -> sx)) :=
   [ (bs "c05.run", run_c05_run);
-    (bs "c05.complete", run_c05_complete) ].
+    (bs "c05.complete", run_c05_complete);
+    (bs "c05.load", run_c05_load) ].
